@@ -1,6 +1,7 @@
 import AcraModel.Sql.Literal
 import AcraModel.Sql.Ident
 import Driver.C13Expr
+import Driver.C13Sel
 import AcraModel.Sql.Forms
 import AcraModel.Sql.Grammar
 /-! Driver ops for C13 (re-serialisation): literal codec. -/
@@ -85,6 +86,9 @@ def handle (op : String) (args : List String) : Option String :=
       match Ident.scanQuotedIdent q b with
       | some (v, rest) => pure s!"ok {hexOf v} {hexOf rest}"
       | none => pure "err"
-  | _, _ => Driver.C13Expr.handle op args
+  | _, _ =>
+      match Driver.C13Sel.handle op args with
+      | some r => some r
+      | none => Driver.C13Expr.handle op args
 
 end Driver.C13
